@@ -489,3 +489,16 @@ def std_checks(rep, results, oracle=None):
             o = oracle(case, impl)
             if o:
                 rep.oracle_failures.append({'case': case, 'impl': impl, 'why': o})
+
+
+def final_fields(final):
+    """'END out=<hex> idx=a:1,b:2, scope=.. group=.. stack=0 cur=g n=1' -> dict (out decoded)"""
+    d = {}
+    for tok in final.split()[1:]:
+        k, _, v = tok.partition('=')
+        d[k] = v
+    try:
+        d['out_text'] = bytes.fromhex(d.get('out', '')).decode('utf-8', 'replace')
+    except ValueError:
+        d['out_text'] = ''
+    return d
